@@ -137,6 +137,48 @@ def r1_bound(ck, cx, sh):
         ck.ob('R1', init.qn, 'the constructor stores the configured retries', False, detail='retries-not-stored', loc=cx.floc(init))
 
 
+def r20_every_attempt_connects(ck, cx, sh, rule='R20'):
+    """The fault handlers of _transact close the transport (R4).  The attempt that follows -- the retry inside this call, or the
+    first attempt of the next call -- therefore starts on a closed socket unless it opens it again: between the top of the retry
+    loop body and the transmission there is a client.connect() on every path."""
+    ck.rule(rule, 'every attempt starts from an open connection: client.connect() is called before the transmission on every path from the top of the retry-loop body (the fault handler of the previous attempt closed the transport)')
+    tm, ex = sh.tm, sh.ex
+    tr = cx.method(tm, '_transact')
+    ck.saw('functions', tr.qn)
+
+    def connects(e):
+        return e.kind == 'call' and callee_name(e.node) == 'connect' and isinstance(e.node.func, ast.Attribute) and 'client' in U(e.node.func.value)
+    n = 0
+    in_transact = True
+    site = None
+    for p in cx.enum(tr, tm, resolver=cx.tx_helper_resolver(), max_depth=1):
+        seen = False
+        for e in p.ev:
+            if connects(e):
+                seen = True
+            if e.kind == 'call' and callee_name(e.node) == '_send':
+                n += 1
+                if not seen:
+                    in_transact = False
+                    site = site or e.node
+                break
+    in_loop = True
+    for p in cx.enum_region(ex, tm, sh.loop.body):
+        seen = False
+        for e in p.ev:
+            if connects(e):
+                seen = True
+            if e.kind == 'call' and callee_name(e.node) == '_transact':
+                n += 1
+                if not seen:
+                    in_loop = False
+                break
+    ck.ob(rule, tr.qn, 'connect() precedes the transmission inside every attempt', in_transact or in_loop, detail='attempt-without-connect', loc=cx.floc(tr, site),
+          message='a retry can transmit without client.connect(): the handler of the failed attempt closed the transport, so the retry runs on a closed socket and '
+                  'its ConnectionException escapes the client call instead of a reply or an error object being returned')
+    ck.floor(rule, n, 3, 'send sites / attempts examined')
+
+
 def _anc(n):
     while getattr(n, '_parent', None) is not None:
         n = n._parent
@@ -783,13 +825,14 @@ def run(ck, tier):
     ck.guard(r2_table, ck, cx, sh)
     ck.guard(r3_escape, ck, cx, sh)
     ck.guard(r4_state, ck, cx, sh)
+    ck.guard(r20_every_attempt_connects, ck, cx, sh)
     ck.assume('wall-clock bounds of the transports\' blocking calls and _wait_for_data with timeout=None are not decided')
     ck.assume('that a following transaction returns the correct reply is not decided (C08 decides the pairing structure)')
     from .. import ownership as _own
     ck.guard(_own.rule_instance_owned, ck, cx, 'R12', _own.MANAGERS, "state of one client's transactions (silent units, pending replies) leaks into another client's calls", 3)
     from .. import loops as _loops
     from ..msgtables import registered_classes as _rc
-    ck.guard(_loops.rule_cursor_loops, ck, cx, 'R13', _rc(cx)[1], 'the client call hangs inside the decoder on one malformed reply instead of returning an error object', 8)
+    ck.guard(_loops.rule_cursor_loops, ck, cx, 'R13', _rc(cx)[1], 'the client call hangs inside the decoder on one malformed reply instead of returning an error object', 6)
     ck.guard(r14_client_decoder_contains, ck, cx)
     from .. import ownership as _own2
     ck.rule('R15', 'no unsound memoisation (a caching decorator on a method, or on a function that returns a mutable container) in the modules this property rests on')
